@@ -66,7 +66,7 @@ type Ev struct {
 	Color int    // EvLine
 	Err   string
 	Attrs map[string]string // EvLog
-	N     int               // listener index (EvEvent)
+	N     int               // listener index (EvEvent); attempted length (EvWrite)
 }
 
 // World is one broker with its surroundings.
@@ -99,6 +99,7 @@ type World struct {
 	doErr    error
 
 	Logger *slog.Logger
+	JSON   *lockedBuf // what a real slog.NewJSONHandler wrote
 
 	atts []*Attempt
 
@@ -121,7 +122,8 @@ func NewWorld(ichCap, ochCap, nListeners int, gated, holdRelease bool) *World {
 		panic(err)
 	}
 	w.B = b
-	w.Logger = slog.New(&capHandler{w: w})
+	w.JSON = &lockedBuf{}
+	w.Logger = slog.New(fanout{&capHandler{w: w}, slog.NewJSONHandler(w.JSON, nil)})
 	for i := 0; i < nListeners; i++ {
 		ch := make(chan iobroker.Event, iobroker.EVChanLen)
 		b.AddEventListener(ch)
@@ -576,10 +578,10 @@ func (wr *Writer) write(p []byte) (int, error) {
 	wr.Buf = append(wr.Buf, p[:n]...)
 	wr.mu.Unlock()
 	if fail {
-		wr.w.add(Ev{Kind: EvWrite, Att: wr.att, Data: string(p[:n]), Err: ErrInjected.Error()})
+		wr.w.add(Ev{Kind: EvWrite, Att: wr.att, Data: string(p[:n]), Err: ErrInjected.Error(), N: len(p)})
 		return n, ErrInjected
 	}
-	wr.w.add(Ev{Kind: EvWrite, Att: wr.att, Data: string(p)})
+	wr.w.add(Ev{Kind: EvWrite, Att: wr.att, Data: string(p), N: len(p)})
 	return len(p), nil
 }
 
@@ -690,6 +692,9 @@ func (r *Reader) Read(p []byte) (int, error) {
 	r.w.add(e)
 	return n, err
 }
+
+// Ended reports whether a terminal error has been returned.
+func (r *Reader) Ended() bool { r.mu.Lock(); defer r.mu.Unlock(); return r.ended }
 
 // Pending reports how many fed items have not been read yet.
 func (r *Reader) Pending() int { r.mu.Lock(); defer r.mu.Unlock(); return len(r.q) }
@@ -808,3 +813,40 @@ func (w *World) Leaked() string {
 	}
 	return iobStacks(cur)
 }
+
+// lockedBuf is a goroutine-safe byte buffer.
+type lockedBuf struct {
+	mu sync.Mutex
+	b  []byte
+}
+
+func (l *lockedBuf) Write(p []byte) (int, error) {
+	l.mu.Lock()
+	l.b = append(l.b, p...)
+	l.mu.Unlock()
+	return len(p), nil
+}
+
+// Bytes returns a copy of the contents.
+func (l *lockedBuf) Bytes() []byte {
+	l.mu.Lock()
+	defer l.mu.Unlock()
+	return append([]byte(nil), l.b...)
+}
+
+// fanout sends records to two handlers.
+type fanout [2]slog.Handler
+
+func (f fanout) Enabled(ctx context.Context, l slog.Level) bool { return true }
+var fanoutMu sync.Mutex // both handlers must see records in the same order
+
+func (f fanout) Handle(ctx context.Context, r slog.Record) error {
+	fanoutMu.Lock()
+	defer fanoutMu.Unlock()
+	f[0].Handle(ctx, r.Clone())
+	return f[1].Handle(ctx, r)
+}
+func (f fanout) WithAttrs(as []slog.Attr) slog.Handler {
+	return fanout{f[0].WithAttrs(as), f[1].WithAttrs(as)}
+}
+func (f fanout) WithGroup(g string) slog.Handler { return fanout{f[0].WithGroup(g), f[1].WithGroup(g)} }
